@@ -97,6 +97,15 @@ fn hand_cases() -> Vec<(&'static str, u32, Vec<String>)> {
         ("dead and below an or and below a live and", 2, ls("o 1 0 / a 2 0 / a 3 0 / f 4 0 / t 5 0 / 3 4 0 / 2 3 0 / 2 5 0 / 1 2 1 0 / 1 3 -1 2 0 / 1 5 -1 -2 0")),
         ("or that loses every child stays childless below an and", 2, ls("o 1 0 / a 2 0 / o 3 0 / f 4 0 / t 5 0 / 3 4 2 0 / 3 4 -2 0 / 2 3 0 / 1 2 1 0 / 1 5 -1 2 0 / 1 5 -1 -2 0")),
         ("shared or with different missing sets at two parents", 4, ls("o 1 0 / o 2 0 / o 3 0 / t 4 0 / 3 4 3 0 / 3 4 -3 0 / 2 3 2 0 / 2 4 -2 3 4 0 / 1 2 1 0 / 1 3 -1 2 4 0")),
+        // witnesses of Props/C01.v for the conditions of d4_conform (C01_d4_conform_*_refuted)
+        ("conform witness: or node without a complementary pair (det_cert fails)", 2, ls("o 1 0 / t 2 0 / 1 2 1 0 / 1 2 2 0")),
+        ("conform witness: and node over the same feature twice (decomposable fails)", 1, ls("a 1 0 / t 2 0 / 1 2 1 0 / 1 2 -1 0")),
+        ("conform witness: edge literal mentioned again below the target (decomposable fails)", 1, ls("o 1 0 / o 2 0 / t 3 0 / 2 3 1 0 / 2 3 -1 0 / 1 2 1 0 / 1 3 -1 0")),
+        ("conform witness: an edge that repeats a feature (decomposable fails)", 1, ls("o 1 0 / t 2 0 / 1 2 1 1 0 / 1 2 -1 0")),
+        ("conform witness: edge out of a t node, its feature is neither free nor kept (complete fails)", 2, ls("o 1 0 / t 2 0 / t 3 0 / 1 2 1 0 / 1 2 -1 0 / 2 3 2 0")),
+        ("conform, not necessary: two unlabelled edges into the same f node", 1, ls("o 1 0 / f 2 0 / t 3 0 / 1 2 0 / 1 2 0 / 1 3 1 0")),
+        ("conform, not necessary: deterministic or that is not a decision node", 1, ls("o 1 0 / a 2 0 / a 3 0 / t 4 0 / 1 2 0 / 1 3 0 / 2 4 1 0 / 3 4 -1 0")),
+        ("conform example: shared node, two missing sets, dead branch, free feature 5", 5, ls("o 1 0 / o 2 0 / o 3 0 / t 4 0 / f 5 0 / 3 4 3 0 / 3 4 -3 0 / 2 3 2 0 / 2 4 -2 3 4 0 / 1 2 1 0 / 1 3 -1 2 4 0 / 1 5 -1 -2 0")),
     ]
 }
 
